@@ -1,4 +1,6 @@
+mod alloc_mon;
 mod c12x;
+mod c13;
 mod c14;
 mod c17;
 mod canon;
@@ -16,6 +18,9 @@ mod spec;
 mod sstr;
 
 use std::collections::HashMap;
+
+#[global_allocator]
+static GLOBAL: alloc_mon::Mon = alloc_mon::Mon;
 
 pub struct Args {
     pub cmd: String,
@@ -93,6 +98,8 @@ fn main() {
         "domops" => domops::main(&a),
         "sstr" => sstr::main(&a),
         "c17" => c17::main(&a),
+        "c13" => c13::main(&a),
+        "c13child" => c13::child_main(),
         "c14" => c14::main(&a),
         "c14read" => c14::read_main(&a),
         "c12read" => c12x::read_main(&a),
